@@ -13,7 +13,7 @@ LEVEL_TEXT = ("Differential testing between the five public decode entry points:
               "fast-packet messages are delivered frame by frame through the frame-level formats and pre-assembled through the others.")
 TECHNIQUE = "differential testing between five format front-ends on reference-rendered frames (Hypothesis)"
 RULE = ("database PGN x source x destination (PDU1) x priority x data {accepted payload of the definition, arbitrary bytes, 1..8 bytes} x format "
-        "variants; single-frame: 5 formats, fast-packet: 3 frame-level formats + plain non-combined vs Actisense + plain combined; oracle: all "
+        "variants; single-frame: 5 formats, fast-packet: 3 frame-level formats + plain non-combined vs Actisense + plain combined, with real time passing between frames and with both format orders on one decoder; oracle: all "
         "formats return the same (id, PGN, source, destination, priority, fields) or none returns a message; non-trivial = data neither "
         "palindromic nor all-0xFF, or fast-packet; distinct = (pgn, addressing, data)")
 ASSUMPTIONS = [
